@@ -88,6 +88,13 @@ func (r *Response) FetchPayload(maxPayloadSize int64) error {
 
 	stdr := r.Response
 
+	// The response to a HEAD request has no body, its Content-Length is
+	// the length of the body a GET would have returned.
+	if stdr.Request != nil && stdr.Request.Method == http.MethodHead {
+		r.SetPayload(nil)
+		return nil
+	}
+
 	if stdr.ContentLength > maxPayloadSize {
 		return ErrResponseEntityTooLarge
 	}
